@@ -596,6 +596,9 @@ func (r *runner) runDist(ci int, c *tcase, raw json.RawMessage) {
 	}
 	mut := doc
 	for _, ft := range c.Faults {
+		if c.Mutated != nil {
+			break
+		}
 		var e error
 		mut, e = applyCfgFault(mut, ft)
 		if e == errInapplicable {
@@ -607,6 +610,9 @@ func (r *runner) runDist(ci int, c *tcase, raw json.RawMessage) {
 		}
 	}
 	r.jr.at(ci, 0, "dist-import")
+	if c.Mutated != nil {
+		mut = []byte(*c.Mutated)
+	}
 	imp, err, pm := importAs(d, mut)
 	r.jr.at(ci, 0, "dist-judge")
 	if len(c.Faults) == 0 {
@@ -660,6 +666,10 @@ func (r *runner) runDist(ci int, c *tcase, raw json.RawMessage) {
 	}
 	// fault: error, or a distribution that can be used
 	r.count("faults")
+	r.judgeDist(c, raw, d, imp, err, pm, mut)
+}
+
+func (r *runner) judgeDist(c *tcase, raw json.RawMessage, d, imp distObj, err error, pm string, mut []byte) {
 	if pm != "" {
 		r.distReport(c, raw, "decoder_panic", pm, mut)
 		return
@@ -695,4 +705,21 @@ func (r *runner) runDist(ci int, c *tcase, raw json.RawMessage) {
 	if okOrig > 0 && okImp == 0 {
 		r.distReport(c, raw, "corrupt_object", "LogPdf of the imported distribution panics at every probe point", mut)
 	}
+}
+
+// registry prints the names of all registered distribution families
+func registry() {
+	names := []string{}
+	for k := range ScalarPdfRegistry {
+		names = append(names, k)
+	}
+	for k := range VectorPdfRegistry {
+		names = append(names, k)
+	}
+	for k := range MatrixPdfRegistry {
+		names = append(names, k)
+	}
+	sort.Strings(names)
+	b, _ := json.Marshal(names)
+	fmt.Println(string(b))
 }
